@@ -433,6 +433,52 @@ func c10R2(p *core.Prog, r *core.Report, rule string) {
 			}
 			return false
 		})
+		if !ok {
+			// the decision may be carried in a flag: with the artifact-type filter assumed to be set,
+			// the store is unreachable from every call that fetched the list with the caller's options
+			// (paths end where the list variable is overwritten by another producer)
+			assume := map[ssa.Value]bool{}
+			for _, b := range cc.fn.Blocks {
+				for _, in := range b.Instrs {
+					bo, isB := in.(*ssa.BinOp)
+					if !isB || (bo.Op != token.EQL && bo.Op != token.NEQ) {
+						continue
+					}
+					isAT := func(v ssa.Value) bool {
+						return dependsOnField(v, modPath("types/descriptor"), "MatchOpt", "ArtifactType")
+					}
+					empty := func(v ssa.Value) bool { s, ok := core.ConstString(v); return ok && s == "" }
+					if (isAT(bo.X) && empty(bo.Y)) || (isAT(bo.Y) && empty(bo.X)) {
+						assume[bo] = bo.Op == token.NEQ
+					}
+				}
+			}
+			producers := originCalls(val)
+			reachable := len(assume) == 0
+			for _, oc := range producers {
+				takesConfig := false
+				for _, a := range oc.Call.Args {
+					if core.IsModNamed(a.Type(), "scheme", "ReferrerConfig") {
+						takesConfig = true
+					}
+				}
+				if !takesConfig || oc.Parent() != cc.fn {
+					continue
+				}
+				stop := func(in ssa.Instruction) bool {
+					for _, other := range producers {
+						if other != oc && in == ssa.Instruction(other) {
+							return true
+						}
+					}
+					return false
+				}
+				if (core.Reach{Assume: assume, Stop: stop}).FromInstr(oc)[cc.c.(ssa.Instruction)] {
+					reachable = true
+				}
+			}
+			ok = !reachable
+		}
 		r.Check(ok, rule, fname, lab[fname].next(cc.field+".Set value"), p.Pos(cc.c.Pos()),
 			"a list fetched with the caller's filter options may be cached under the subject's key only when no artifact-type filter was sent to the server; otherwise later unfiltered listings lose live referrers")
 	}
